@@ -21,6 +21,7 @@ type oracles struct {
 	model  bool // C02: publication exactly when observed && quorum, per the reference model
 	gossip bool // C03: unacceptable observations leave no trace, acceptable ones are recorded
 	live   bool // C13: after the script a fresh message still reaches quorum
+	digest bool // C04: every own SignedObservation carries the reference digest of the observed message
 	adv    bool // C13: adversarial ops allowed (injection before the first set, arbitrary injected VAAs)
 	pfx    string
 }
@@ -255,7 +256,7 @@ func (r *runner) step(i int, x op) *vh.Violation {
 				}
 			}
 			for _, ob := range so.obs {
-				if v := r.checkOwnObservation(m, ob, x.K == "inject"); v != nil && (r.o.model || r.o.safety) {
+				if v := r.checkOwnObservation(m, ob, x.K == "inject"); v != nil && (r.o.model || r.o.safety || r.o.digest) {
 					return v
 				}
 			}
